@@ -239,11 +239,6 @@ impl MultiRecordLog {
             };
             num_bytes_written += self.record_log_writer.write_record(record)?;
         }
-        if num_bytes_written > 0 {
-            // We need to fsync here! We are remove files from the FS
-            // so we need to make sure our empty queue positions are properly persisted.
-            self.persist(PersistAction::FlushAndFsync)?;
-        }
         Ok(num_bytes_written)
     }
 
@@ -298,6 +293,11 @@ impl MultiRecordLog {
             // contain the truncate positions it self won't be GC'ed.
             let _file_number = self.record_log_writer.current_file().clone();
             num_bytes_written += self.record_empty_queues_position()?;
+            // We need to fsync here! We are about to remove files from the FS, so everything
+            // that makes them removable must be persisted first: the empty queue positions,
+            // but also the truncate or delete record that triggered this gc and whatever was
+            // written before it and is still sitting in the write buffer.
+            self.persist(PersistAction::FlushAndFsync)?;
             self.record_log_writer.directory().gc()?;
         }
         // only execute the following if we are above the debug  level in tokio tracing
